@@ -484,13 +484,17 @@ def run(ctx):
     j = J(ctx)
     wd = scratch.mkdtemp("c19")
     try:
-        g96_cases(j, wd, ctx.quick)
-        xyz_cases(j, wd, ctx.quick)
-        lammps_cases(j, wd, ctx.quick)
-        trr_cases(j, wd, ctx.quick)
-        mdp_cases(j, wd, ctx.quick)
-        cp2k_cases(j, wd, ctx.quick)
-        lammps_template_cases(j, wd, ctx.quick)
+        for fam in (g96_cases, xyz_cases, lammps_cases, trr_cases, mdp_cases, cp2k_cases, lammps_template_cases):
+            try:
+                fam(j, wd, ctx.quick)
+            except Exception as e:  # noqa: BLE001 - raised inside the codec under test: that is a verdict
+                import traceback
+
+                tb = traceback.extract_tb(e.__traceback__)
+                where = next((f"{os.path.basename(fr.filename)}:{fr.name}" for fr in reversed(tb) if "/infretis/" in fr.filename), None)
+                if where is None:
+                    raise
+                j.fail(f"{fam.__name__.replace('_cases', '')}:raised", f"{type(e).__name__}: {e} (in {where}) on an input that is within the format")
     finally:
         scratch.rmtree(wd)
     ctx.set("evaluations", j.n)
